@@ -1,7 +1,7 @@
 """C12 — Docstring parsers are total and terminating on arbitrary text.
 
 Domain: "fragment soup" texts (vp/gen/c12_soup.py) x every style x every Boolean option combination
-(2^8 Google + 2^3 Numpy + 2^1 Sphinx = 266 parses per text) x 27 parent templates (none, module, class, subclass,
+(2^8 Google + 2^3 Numpy + 2^1 Sphinx = 266 parses per text) x 34 parent templates (none, module, class, subclass,
 functions with all parameter kinds and tuple/Iterator/Generator returns as expressions, as string annotations and as plain
 `str`, `__init__` in a class, method, property attributes, annotated/un-annotated attributes, built-in module (no filepath)
 and its members). Thorough tier adds an Atheris coverage-guided target (vp/fuzz/c12_atheris.py) with the same oracle.
@@ -36,17 +36,23 @@ LEVEL = "exploration"
 RULE = (
     "Hypothesis fragment-soup texts (section keywords of all styles in 5 capitalisations, titles, dash lines, item syntaxes, Sphinx fields, "
     "doctest/fence/blank/whitespace-only lines, prose with colons, non-ASCII; structured Google/Numpy/Sphinx blocks and loose lines at "
-    "indents 0-12/tabs) x 27 parent templates; every text is parsed under all 266 (style, Boolean option combination) pairs. "
+    "indents 0-12/tabs) x 34 parent templates; every text is parsed under all 266 (style, Boolean option combination) pairs. "
     "evaluations = texts; parses = texts x 266 (see `parses`). non-trivial text = at least one parse returned >=2 sections or a non-text "
     "section; distinct = distinct (parent template, text)"
 )
 ASSUMPTIONS = [
-    "texts are valid Unicode without lone surrogates, <= ~60 lines of <= ~200 characters (longer single tokens make CPython's compile() "
-    "hit its recursion limit inside parse_docstring_annotation; not explored)",
+    "texts are <= ~60 lines; type positions include tokens CPython's compile() gives up on (3000-fold nesting, NUL, a lone surrogate); "
+    "lone surrogates elsewhere in the text and texts of megabytes are not explored",
     "parents are built with griffe.visit from one fixed source snippet and registered in their ModulesCollection, as a loader does; "
-    "plain-str annotations are set through the public attributes (Function.returns, Parameter.annotation/default)",
+    "plain-str annotations are set through the public attributes (Function.returns, Parameter.annotation/default); seven more parents are "
+    "hand-built with the public API and attached to nothing (Function('__init__'), Function, Attribute, Class, a Class whose __init__ is an "
+    "alias to a missing target, a method of a parent-less class, a function in a Module without modules collection), as the repository's own "
+    "docstring tests build them",
     "the docstring under test is created with Docstring(text, lineno=.., endlineno=.., parent=p) and is not attached as p.docstring",
     "well-formedness is what the section classes in _griffe/docstrings/models.py declare (annotation/value may be str, Expr or None)",
+    "prose clause: 'no section syntax' = no line starting with ':', no dash-only line, and every title-like line (`identifier:` + end of line or "
+    "blank; known keywords included) has a missing, blank or un-indented line directly below it - the docs define a Google section as a title "
+    "with indented contents directly below and call a blank line in between plain markup; key: value lines are therefore prose",
     "prose clause: skipped for ignore_init_summary on an __init__ method (documented to drop the summary) and for "
     "returns_type_in_property_summary on a property whose first line contains a colon (documented `type: summary` syntax); "
     "an empty docstring may yield []",
